@@ -2654,6 +2654,16 @@ PPL::MIP_Problem::ascii_load(std::istream& s) {
     return false;
   }
 
+  // Release the constraints currently owned by *this (the inherited
+  // ones are owned by the ancestors): the loaded ones replace them.
+  for (Constraint_Sequence::const_iterator
+         i = nth_iter(input_cs, inherited_constraints),
+         i_end = input_cs.end(); i != i_end; ++i) {
+    delete *i;
+  }
+  input_cs.clear();
+  inherited_constraints = 0;
+
   Constraint c(Constraint::zero_dim_positivity());
   input_cs.reserve(input_cs_size);
   for (dimension_type i = 0; i < input_cs_size; ++i) {
@@ -2804,6 +2814,7 @@ PPL::MIP_Problem::ascii_load(std::istream& s) {
     return false;
   }
 
+  base.clear();
   for (dimension_type i = 0; i != base_size; ++i) {
     dimension_type base_value;
     if (!(s >> base_value)) {
@@ -2832,6 +2843,7 @@ PPL::MIP_Problem::ascii_load(std::istream& s) {
     return false;
   }
 
+  mapping.clear();
   // The first `mapping' index is never used, so we initialize
   // it pushing back a dummy value.
   if (tableau.num_columns() != 0) {
